@@ -2,26 +2,32 @@ use crate::engine::{CaseResult, Engine, Failure};
 use serde_json::Value;
 
 pub mod c01;
+pub mod c02;
 pub mod c04;
 pub mod c05;
 pub mod c06;
 pub mod c07;
+pub mod c08;
 pub mod c09;
 pub mod c10;
 pub mod c11;
 pub mod c14;
+pub mod c15;
 
 pub fn run(id: &str, eng: &Engine) {
     match id {
         "C01" => c01::run(eng),
+        "C02" => c02::run(eng),
         "C04" => c04::run(eng),
         "C05" => c05::run(eng),
         "C06" => c06::run(eng),
         "C07" => c07::run(eng),
+        "C08" => c08::run(eng),
         "C09" => c09::run(eng),
         "C10" => c10::run(eng),
         "C11" => c11::run(eng),
         "C14" => c14::run(eng),
+        "C15" => c15::run(eng),
         _ => {
             println!("INCONCLUSIVE unknown property {id}");
             std::process::exit(2);
@@ -32,14 +38,17 @@ pub fn run(id: &str, eng: &Engine) {
 pub fn replay(id: &str, eng: &Engine, stage: &str, case: &Value) -> CaseResult {
     match id {
         "C01" => c01::replay(eng, stage, case),
+        "C02" => c02::replay(eng, stage, case),
         "C04" => c04::replay(eng, stage, case),
         "C05" => c05::replay(eng, stage, case),
         "C06" => c06::replay(eng, stage, case),
         "C07" => c07::replay(eng, stage, case),
+        "C08" => c08::replay(eng, stage, case),
         "C09" => c09::replay(eng, stage, case),
         "C10" => c10::replay(eng, stage, case),
         "C11" => c11::replay(eng, stage, case),
         "C14" => c14::replay(eng, stage, case),
+        "C15" => c15::replay(eng, stage, case),
         _ => Err(Failure::new("machinery", format!("unknown property {id}"))),
     }
 }
